@@ -98,6 +98,8 @@ def render_stmt(s):
         out += tag + render_parts(s["p2"]) + render_parts(s["p1"])
     else:
         out += tag + render_parts(s["p1"]) + render_parts(s["p2"])
+    if k == "cfgpair" and s["blk"]:
+        out += render_trivia(s["ge"])
     if s["blk"]:
         out += render_block(s["blk"][0])
     if len(s["blk"]) > 1:
@@ -203,6 +205,10 @@ class Gen:
             return [part("%" + bin(r.randrange(1, 200))[2:])]
         if k == 4 and self.labels:
             return [part(r.choice("<>")), part(r.choice(self.labels), g=self.gap1(False) if r.random() < 0.2 else [])]
+        if r.random() < 0.15:
+            return [part(r.choice(["true", "false"]))]
+        if r.random() < 0.1 and self.consts:
+            return [part("defined"), part("(", g=self.gap1(False)), part(r.choice(self.consts), g=self.gap1(False)), part(")", g=self.gap1(False))]
         return [part(str(r.randrange(0, 256)))]
 
     def expr(self, small=False):
@@ -233,10 +239,13 @@ class Gen:
     # -- statements
     def insn(self):
         r = self.r
-        k = r.randrange(7)
+        k = r.randrange(8)
         if k == 0:
             m = r.choice(MNEM_IMPLIED)
             return stmt("insn", m, src=self.anycase(m))
+        if k == 7:
+            ps = [part("(", g=self.gap1(True))] + self.first_gap([part("$%04x" % r.randrange(0x200, 0xff00))], False) + [part(")", g=self.gap1(False))]
+            return stmt("insn", "jmp", p1=ps, src=self.anycase("jmp"))
         m = r.choice(MNEM_OPER)
         if k in (1, 2):
             ps = [part("#", g=self.gap1(True))] + self.first_gap(self.expr(True) if k == 1 or not self.labels else [part("<"), part(r.choice(self.labels))], False)
@@ -291,12 +300,13 @@ class Gen:
     def statement(self, depth, prev=None):
         r = self.r
         kinds = ["insn"] * 6 + ["label", "label", "data", "data", "var", "pc", "align", "text", "assert", "trace", "call"]
+        kinds += ["segment", "file", "import", "define"] if self.r.random() < 0.5 else []
         if depth > 0:
-            kinds += ["braces", "if", "if", "loop", "labelblk", "macro", "test"]
+            kinds += ["braces", "if", "if", "loop", "labelblk", "macro", "test", "segmentblk", "importblk"]
         k = r.choice(kinds)
         if k == "call" and not self.macros:
             k = "insn"
-        if k == "braces" and prev is not None and prev["k"] == "label" and not prev["blk"]:
+        if k == "braces" and prev is not None and prev["k"] in ("label", "segment", "import") and not prev["blk"]:
             k = "insn"                      # "l1:" newline "{" is ONE statement for the parser (a label with a block)
         s = None
         if k == "insn":
@@ -320,7 +330,8 @@ class Gen:
             s = stmt("align", ".align", p1=self.first_gap([part(str(r.choice([2, 4, 8, 16])))], True), src=self.anycase(".align"))
         elif k == "text":
             enc = [part(r.choice(["ascii", "petscii", "petscreen"]), g=self.gap1(True))] if r.random() < 0.4 else []
-            s = stmt("text", ".text", p1=[part('"t%d"' % r.randrange(100), g=self.gap1(True))], p2=enc, src=self.anycase(".text"))
+            lit = '"t%d"' % r.randrange(100) if not self.consts or r.random() < 0.6 else '"v{%s}w"' % r.choice(self.consts)
+            s = stmt("text", ".text", p1=[part(lit, g=self.gap1(True))], p2=enc, src=self.anycase(".text"))
         elif k == "assert":
             msg = [part('"m%d"' % r.randrange(100), g=self.gap1(True))] if r.random() < 0.5 else []
             s = stmt("assert", ".assert", p1=self.first_gap(self.atom() + [part("==", "b", g=self.gap1(False))] + self.first_gap(self.atom(), False), True), p2=msg, src=self.anycase(".assert"))
@@ -354,6 +365,54 @@ class Gen:
             s = stmt("macro", ".macro", p1=[part(name, g=self.gap1(True)), part("(", g=self.gap1(False))] + args + [part(")", g=self.gap1(False))],
                      blk=[self.blk(0)], src=self.anycase(".macro"))
             self.macros.append((name, n))
+        elif k in ("segment", "segmentblk"):
+            s = stmt("segment", ".segment", p1=[part(r.choice(['"default"', '"s1"']), g=self.gap1(True))],
+                     blk=[self.blk(depth)] if k == "segmentblk" else [], src=self.anycase(".segment"))
+        elif k == "file":
+            s = stmt("file", ".file", p1=[part('"f%d.bin"' % r.randrange(10), g=self.gap1(True))], src=self.anycase(".file"))
+        elif k in ("import", "importblk"):
+            def as_(name):
+                return [part("as", "a", g=self.gap1(True), src=self.anycase("as")), part(name, g=self.gap1(True))]
+            form = r.randrange(5)
+            if form == 0:
+                args = [part("*", "c", g=self.gap1(True))]
+            elif form == 1:
+                args = [part("*", "c", g=self.gap1(True))] + as_("im%d" % r.randrange(100))
+            elif form == 2:
+                args = [part("foo", "c", g=self.gap1(True))]
+            elif form == 3:
+                args = [part("foo", "c", g=self.gap1(True))] + as_("f%d" % r.randrange(100))
+            else:
+                args = [part("foo", "c", g=self.gap1(True))] + (as_("f%d" % r.randrange(100)) if r.random() < 0.5 else []) + \
+                       [part(",", "c", g=self.gap1(False)), part("baz", "c", g=self.gap1(False))] + (as_("b%d" % r.randrange(100)) if r.random() < 0.5 else [])
+            fg = self.gapn(False)
+            if not fg or fg[-1]["k"] == "c":
+                fg.append(self.wsp())
+            if fg[0]["k"] == "c":
+                fg.insert(0, self.wsp())
+            s = stmt("import", ".import", p1=args, p2=[part("from", g=fg, src=self.anycase("from")), part('"o.asm"', g=self.gap1(True))],
+                     blk=[self.blk(depth)] if k == "importblk" else [], src=self.anycase(".import"))
+        elif k == "define":
+            what = r.choice(["segment", "bank"])
+            self.ndef = getattr(self, "ndef", 0) + 1
+            vals = ([("name", [part("s%d" % self.ndef)]), ("start", [part("$%04x" % r.randrange(0x3000, 0x9000))] + ([part("+", "b", g=self.gap1(False)), part("4", g=self.gap1(False))] if r.random() < 0.3 else []))]
+                    if what == "segment" else [("name", [part("b%d" % self.ndef)]), ("fill", [part(str(r.randrange(256)))])])
+            if what == "segment" and r.random() < 0.4:
+                vals.append(("write", [part(r.choice(["true", "false"]))]))
+            if r.random() < 0.15:
+                vals.append(("nested", None))
+            pairs = []
+            for i, (key, v) in enumerate(vals):
+                lead = self.gapn(False, first=True) if i == 0 else (self.gapn(True) if r.random() < 0.8 else [self.wsp()])
+                if i > 0 and lead and lead[0]["k"] == "c":
+                    lead.insert(0, self.wsp())
+                if v is None:
+                    inner = stmt("cfgpair", "nested-id", p1=[part("=", g=self.gapn(False)), part("v1", g=self.gapn(False))], lead=self.gapn(False, first=True))
+                    pairs.append(stmt("cfgpair", key, p1=[part("=", g=self.gapn(False))], blk=[block([inner], r=self.gapn(False))], ge=self.gapn(False), lead=lead))
+                else:
+                    v[0]["g"] = self.gapn(False) + v[0]["g"]
+                    pairs.append(stmt("cfgpair", key, p1=[part("=", g=self.gapn(False))] + v, lead=lead))
+            s = stmt("define", ".define", p1=[part(what, g=self.gap1(True))], blk=[block(pairs, l=self.gapn(False), r=self.gapn(False))], src=self.anycase(".define"))
         elif k == "test":
             s = stmt("test", ".test", p1=[part('"t%d"' % r.randrange(1000), g=self.gap1(True))], blk=[self.blk(0)], src=self.anycase(".test"))
         # leading trivia: a statement normally starts on a new line
@@ -388,6 +447,7 @@ def random_opts(r):
     return o
 
 
+OTHER_ASM = "foo: nop\nbaz: rts\n"
 DEFAULT_OPTS = {"mcase": "l", "rcase": "l", "brace": "same", "indent": 4, "lm": 20, "align": "r", "cm": 30}
 EMPTY_FILE = {"body": [], "eof": []}
 
@@ -414,7 +474,8 @@ def record(cid, obs, opts, model=None, fname="main.asm"):
             "opts": opts, "ok": ok, "panic": obs.get("panic") or "", "reparse_ok": bool(obs.get("reparse_ok")),
             "asm": asm, "asm_same": (obs.get("asm_before") == obs.get("asm_after")) if asm else True,
             "ast": f["ast"], "ast_fmt": f["ast_fmt"], "comments": f["comments"], "comments_fmt": f["comments_fmt"],
-            "lex": f["lex"], "lex_fmt": f["lex_fmt"], "dropgap": [d["text"] for d in f["dropgap"]],
+            "lex": f["lex"], "lex_fmt": f["lex_fmt"], "dropgap": [d["text"] for d in f["dropgap"] if d["owner"] != "import-arg"],
+            "dropimp": [d["text"] for d in f["dropgap"] if d["owner"] == "import-arg"],
             "fmt": f["fmt"], "fmt2": f["fmt2"], "lines": f["fmt_lines"], "lines2": f["fmt2_lines"]}
 
 
@@ -427,12 +488,14 @@ GOLDEN = ["mos-core/test-data/format/valid-unformatted.asm", "mos-core/test-data
 
 
 # deviations for which Format.tla has a pinned and a repaired reading (constant Devs), and all recorded ones
-DEVS_IN_SPEC = ["OpenBraceGapDropped", "SameLineStatementsGlued", "ElseOnNewLineGainsBlankLine"]
-DESIGN_REFUTED = {"C12": ["OpenBraceGapDropped", "SameLineStatementsGlued"],
+DEVS_IN_SPEC = ["OpenBraceGapDropped", "SameLineStatementsGlued", "ElseOnNewLineGainsBlankLine", "ImportArgGapDropped"]
+DESIGN_REFUTED = {"C12": ["OpenBraceGapDropped", "SameLineStatementsGlued", "ImportArgGapDropped"],
                   "C13": ["ElseOnNewLineGainsBlankLine", "BlockCommentContinuationPadded"]}
 INVARIANTS = ("CommentsKept NoJoin TerminalsKept StepwiseIsFunctional OneStatementPerLine NoTrailingBlanks NoDoubleBlank "
               "ContinuationVerbatim ElseStaysAttached")
-GRIDS = {"small": ("{2}", "{4}", "{6}", 99), "quick": ("{0, 2}", "{0, 4}", "{0, 6}", 2), "thorough": ("{0, 2, 8}", "{0, 4, 20}", "{0, 6, 30}", 2)}
+CP2 = '{"lu", "ul"}'            # (mnemonic casing, register casing)
+CP4 = '{"ll", "lu", "ul", "uu"}'
+GRIDS = {"small": ("{2}", "{4}", "{6}", 99, CP2), "quick": ("{0, 2}", "{0, 4}", "{0, 6}", 2, CP2), "thorough": ("{0, 2, 8}", "{0, 4, 20}", "{0, 6, 30}", 2, CP4)}
 
 
 def findings_view():
@@ -471,10 +534,10 @@ def tla_set(names):
 def mc_cfg(name, devs, allowed, grid, invariants):
     d = V.workdir("fmt-cfg")
     path = os.path.join(d, name + ".cfg")
-    ind, lm, cm, replay = GRIDS[grid]
+    ind, lm, cm, replay, cps = GRIDS[grid]
     with open(path, "w") as f:
-        f.write("SPECIFICATION Spec\nCONSTANTS Devs = %s\n  Allowed = %s\n  Indents = %s\n  Margins = %s\n  CodeMargins = %s\n  ReplayIndent = %d\nINVARIANTS %s\n"
-                % (tla_set(devs), tla_set(allowed), ind, lm, cm, replay, invariants))
+        f.write("SPECIFICATION Spec\nCONSTANTS Devs = %s\n  Allowed = %s\n  Indents = %s\n  Margins = %s\n  CodeMargins = %s\n  ReplayIndent = %d\n  CasePairs = %s\nINVARIANTS %s\n"
+                % (tla_set(devs), tla_set(allowed), ind, lm, cm, replay, cps, invariants))
     return path
 
 
@@ -582,16 +645,16 @@ def build_cases(tier, prop, mc_cases):
         return cid
 
     # 1. the cases TLC generated at design level (with the text the model predicts: checked again by tier 2)
-    sel = mc_cases if tier != "quick" else rnd.sample(mc_cases, min(len(mc_cases), 2500))
+    sel = rnd.sample(mc_cases, min(len(mc_cases), 2500 if tier == "quick" else 30000))
     for c in sel:
-        add({"main.asm": render_file(c["file"])}, c["opts"], c["file"], "tlc")
+        add({"main.asm": render_file(c["file"]), "o.asm": OTHER_ASM}, c["opts"], c["file"], "tlc")
     # 2. seeded random programs over the whole modelled grammar
     n = 2000 if tier == "quick" else 20000
     for i in range(n):
         g = Gen(rnd, comment_rate=rnd.choice([0.05, 0.1, 0.2, 0.4]), sameline_rate=rnd.choice([0, 0, 0, 0.1]),
                 depth=rnd.choice([1, 2, 2]), multiline=rnd.random() < 0.6)
         f = g.file(rnd.randrange(1, 7))
-        add({"main.asm": render_file(f)}, random_opts(rnd), f, "random")
+        add({"main.asm": render_file(f), "o.asm": OTHER_ASM}, random_opts(rnd), f, "random")
     # 3. the repository's golden files (all statement kinds incl. .define/.import/.file/.segment) and mutations of them; no model
     for files, name in golden_cases():
         add(files, dict(DEFAULT_OPTS), None, "golden")
@@ -709,7 +772,7 @@ def run(prop, tier):
     rep.cov["traces_validated_against_impl"] = nok + ncmd
     rep.cov["evaluations"] = len(recs)
     rep.cov["distinct_nontrivial"] = len({(json.dumps(c["files"], sort_keys=True), json.dumps(c["opts"], sort_keys=True)) for c in cases if obs[c["id"]]["ok"]})
-    rep.cov["rule"] = ("(file text, formatter options) pairs that parse without errors: cases printed by TLC from MC_Format (16 statement forms x every gap x "
+    rep.cov["rule"] = ("(file text, formatter options) pairs that parse without errors: cases printed by TLC from MC_Format (31 statement forms x every gap x "
                        "block/2-line/line comment x option grid), seeded random programs of 1-6 statements (nesting <= 2, comments in every gap, "
                        "options from the grid and random margins), the two golden files and line-level mutations of them under random options; "
                        "distinct = distinct (text, options) pairs")
